@@ -286,4 +286,31 @@ example : ((⟨⟨1, 2, 3⟩, ⟨0, -1, 0, 1, 0, 0, 0, 0, 1⟩, 2⟩ : Xf ℚ).r
   unfold Mat3.det; norm_num
 end Laws
 
+/-! ## Matrix4 monoid laws and uniqueness of the inverse -/
+section Mat4Laws
+
+theorem Mat4.mul_assoc (a b c : Mat4 K) : Mat4.mul (Mat4.mul a b) c = Mat4.mul a (Mat4.mul b c) := by
+  funext k
+  obtain ⟨n, hn⟩ := k
+  interval_cases n <;> simp [Mat4.mul] <;> ring
+
+theorem Mat4.mul_one (a : Mat4 K) : Mat4.mul a Mat4.one = a := by
+  funext k
+  obtain ⟨n, hn⟩ := k
+  interval_cases n <;> simp [Mat4.mul, Mat4.one]
+
+theorem Mat4.one_mul (a : Mat4 K) : Mat4.mul Mat4.one a = a := by
+  funext k
+  obtain ⟨n, hn⟩ := k
+  interval_cases n <;> simp [Mat4.mul, Mat4.one]
+
+/-- a one-sided inverse of a matrix with non-zero determinant is `Matrix4::Inverse`'s result -/
+theorem Mat4.inverse_unique (m b : Mat4 K) (h : Mat4.det m ≠ 0) (hb : Mat4.mul m b = Mat4.one) : b = Mat4.inverse m := by
+  have h2 := (Mat4.mul_inverse m h).2
+  calc b = Mat4.mul Mat4.one b := (Mat4.one_mul b).symm
+    _ = Mat4.mul (Mat4.mul (Mat4.inverse m) m) b := by rw [h2]
+    _ = Mat4.mul (Mat4.inverse m) (Mat4.mul m b) := Mat4.mul_assoc _ _ _
+    _ = Mat4.inverse m := by rw [hb, Mat4.mul_one]
+end Mat4Laws
+
 end Nifly.Xform
